@@ -983,6 +983,8 @@ def r12_rule_objects_fresh(ctx, rid: str = "C15.R12") -> None:
                     sites.append((st, a0.value))
                 elif isinstance(a0, ast.Dict):
                     sites += [(st, v) for v in a0.values]
+                elif isinstance(a0, (ast.GeneratorExp, ast.ListComp)) and isinstance(a0.elt, ast.Tuple) and len(a0.elt.elts) == 2:
+                    sites.append((st, a0.elt.elts[1]))  # update() with an iterable of (key, value) pairs
                 else:
                     sites.append((st, a0))
         for st, v in sites:
